@@ -223,10 +223,33 @@ def rule_prec(ctx, prop: str) -> RuleResult:
                 pa = prec_arg(n)
                 if fld == "lhs":
                     seen_l = True
-                    ok = isinstance(pa, ast.Name) and pa.id == lp
-                    res.ob(ok)
-                    if not ok:
+
+                    def is_lp(x):
+                        return isinstance(x, ast.Name) and x.id == lp
+
+                    def is_lp1(x):
+                        return isinstance(x, ast.BinOp) and isinstance(x.op, ast.Add) and is_lp(x.left) and isinstance(x.right, ast.Constant) and x.right.value == 1
+
+                    vals = [pa]
+                    if isinstance(pa, ast.Name) and pa.id != lp:
+                        vals = [k.value for k in f.body_nodes() if isinstance(k, ast.Assign) and len(k.targets) == 1 and dotted(k.targets[0]) == pa.id]
+                    level_ok = bool(vals) and all(is_lp(v) or is_lp1(v) or (isinstance(v, ast.IfExp) and {True} == {is_lp(b) or is_lp1(b) for b in (v.body, v.orelse)}) for v in vals)
+                    res.ob(level_ok)
+                    if not level_ok:
                         res.add(Finding("PREC", file, n.lineno, qn, "lhs-prec", f"left operand printed with precedence `{ast.unparse(pa) if pa else None}` instead of the operator's own level: a lower-precedence left operand loses its parentheses"))
+                    if lang == "Python":
+                        # Python comparisons are not left-associative: `a < b == c` is the CHAIN
+                        # (a < b) and (b == c).  A comparison that is the left operand of a comparison
+                        # must keep its parentheses: level + 1 for the comparison operators.
+                        chain_ok = bool(vals) and all(
+                            is_lp1(v) or (isinstance(v, ast.IfExp) and is_lp1(v.body) and any(isinstance(c, ast.Constant) and c.value in ("<", "==") for c in ast.walk(v.test)))
+                            for v in vals
+                        )
+                        res.ob(chain_ok)
+                        if not chain_ok:
+                            res.add(Finding("PREC", file, n.lineno, qn, "lhs-compare-chain",
+                                            "a comparison printed as the left operand of a comparison loses its parentheses: `(i < j) == (j < 3)` is printed `i < j == (j < 3)`, "
+                                            "which Python reads as the chained comparison `i < j and j == (j < 3)` — the printed text does not parse back to the procedure"))
                 elif fld == "rhs":
                     seen_r = True
                     ok = (
